@@ -211,6 +211,30 @@ func runC13(r *mc.Run) {
 			world.DERSeq(world.DEROID(world.SGXOid(7, 3)), world.DER(0x01, []byte{0}))))
 		add("order/seven-elements", base, assemble(base, append(append([]string{}, stdOrder...), "instance", "config"), tcb, top7), wantExact)
 	}
+	// duplicates: an element listed twice (an identical copy) at every position of every order; whether a
+	// duplicate is an error is left open, but a result must carry every encoded value
+	for pi, perm := range permutations(5) {
+		if pi%6 != 0 && pi != 1 { // every sixth order (20 orders) and the first transposition
+			continue
+		}
+		order := make([]string, 5)
+		for i, k := range perm {
+			order[i] = stdOrder[k]
+		}
+		for _, dup := range stdOrder {
+			for pos := 0; pos <= 5; pos++ {
+				o2 := append(append(append([]string{}, order[:pos]...), dup), order[pos:]...)
+				add(fmt.Sprintf("duplicate/%v/%s@%d", perm, dup, pos), base, assemble(base, o2, tcb, top), wantErrorOrExact)
+			}
+		}
+	}
+	// the same inside the TCB sequence: one element repeated at another position (19 elements)
+	for i := 0; i < 18; i++ {
+		for _, pos := range []int{0, 9, 18} {
+			t := append(append(append([][]byte{}, tcb[:pos]...), tcb[i]), tcb[pos:]...)
+			add(fmt.Sprintf("duplicate/tcb%d@%d", i+1, pos), base, assemble(base, stdOrder, t, top), wantErrorOrExact)
+		}
+	}
 	// malformed: integers
 	oid := func(sub ...int) []byte { return world.DEROID(world.SGXOid(sub...)) }
 	two63 := new(big.Int).Lsh(big.NewInt(1), 63)
